@@ -23,9 +23,30 @@ class Stubs:
         self.filt, self.amp, self.dual = [], [], []
         st = ctx.env.CUR
         st.filter_signal = self._filter
-        st.filter_length = lambda fs, pt, lo, hi, nc, ns: self.L
+        self.flen = []
+        st.filter_length = self._filter_length
         st.amp_by_time = self._amp
         st.dual_threshold = self._dual
+
+    def _filter_length(self, fs, pass_type, f_lo, f_hi, n_cycles, n_seconds):
+        """Library contract: the length is fs * n_seconds, else fs * n_cycles / f_lo (made odd).  Under the
+        ('ratio',) relation a later call with the same length key gets the same L, any other key a different L."""
+        ctx = self.ctx
+        call = dict(fs=fs, f_lo=f_lo, n_cycles=n_cycles, n_seconds=n_seconds)
+        self.flen.append(call)
+        if self.relate is None or self.relate[0] != 'ratio' or len(self.flen) == 1:
+            return self.L
+        first = self.flen[0]
+        try:
+            if (n_seconds is None) != (first['n_seconds'] is None):
+                same = False
+            elif n_seconds is not None:
+                same = ctx.truth(fs * n_seconds == first['fs'] * first['n_seconds'])
+            else:
+                same = ctx.truth(fs * n_cycles * first['f_lo'] == first['fs'] * first['n_cycles'] * f_lo)
+        except TypeError:
+            same = False
+        return self.L if same else self.L + 2
 
     def _same_call(self, first, sig, fs, f_range):
         """('ratio',) contract: same samples and the same f/fs ratios (cross-multiplied, so the
